@@ -64,6 +64,7 @@ type actor struct {
 	heldAtCallStart bool
 	settingUp       atomic.Bool // created the lock directory, heart-beat not started yet
 	acquiredAt      time.Time
+	createdAt       time.Time // when this contender's mkdir created the lock directory
 	lastBeat        time.Time
 	maxBeatGap      time.Duration
 }
@@ -140,6 +141,12 @@ func (w *world) after(op *fsx.Op) {
 						if g := now.Sub(a.lastBeat); g > a.maxBeatGap {
 							a.maxBeatGap = g
 						}
+					} else if !a.createdAt.IsZero() {
+						// the first sign of life after the creation of the directory counts as a gap too: a first heart-beat
+						// that took more than two periods to appear made the lock legitimately look abandoned meanwhile
+						if g := now.Sub(a.createdAt); g > a.maxBeatGap {
+							a.maxBeatGap = g
+						}
 					}
 					a.lastBeat = now
 				}
@@ -173,6 +180,7 @@ func (w *world) after(op *fsx.Op) {
 	switch op.Kind {
 	case "mkdir":
 		a.settingUp.Store(true)
+		a.createdAt = time.Now()
 		w.owner, w.ownerSeq = a.idx, op.Seq
 		w.logf("#%d %s created the lock directory", op.Seq, a.name)
 	case "remove", "removeall":
